@@ -628,6 +628,10 @@ func (cs *ConsensusState) addVote(vote *types.Vote, peerID p2p.ID) (bool, error)
 			cs.Logger.Debug("Precommit vote came in after commit timeout and has been ignored", "vote", vote)
 			return false, nil
 		}
+		if cs.LastCommit == nil {
+			// There is no previous height to collect precommits for (first height of the chain).
+			return false, nil
+		}
 
 		added, err = cs.LastCommit.AddVote(vote)
 		if !added {
